@@ -318,6 +318,7 @@ impl Parser {
         let mut word_bound_pos = Position::new(0, 0, 0, 0);
 
         loop {
+            #[cfg(feature = "verif")] crate::verif::tick(300);
             if let Some(x) = self.get_word_bound() {
                 word_bound_pos = x.position;
                 if contains_word_bound {
@@ -426,6 +427,7 @@ impl Parser {
         envs.push(self.get_env_term()?);
 
         loop {
+            #[cfg(feature = "verif")] crate::verif::tick(301);
             if self.expect(TokenKind::RightColCurly) { break; }
             if !self.expect(TokenKind::Comma) {
                 return Err(RuleSyntaxError::ExpectedComma(self.curr_tkn.clone()))
@@ -445,6 +447,7 @@ impl Parser {
 
         let mut envs = Vec::new();
         loop {
+            #[cfg(feature = "verif")] crate::verif::tick(302);
             let x = self.get_envs()?;
             envs.push(x);
             if !self.expect(TokenKind::Comma) {
@@ -582,6 +585,7 @@ impl Parser {
         // returns PARAMS ← '[' ARG (',' ARG)* ']' 
         let mut args = Modifiers::new();
         while self.has_more_tokens() {
+            #[cfg(feature = "verif")] crate::verif::tick(303);
             if self.expect(TokenKind::RightSquare) {
                 break;
             }
@@ -768,6 +772,7 @@ impl Parser {
         let mut first_bound: usize = 0;
         let mut second_bound: usize = 0;
         while self.has_more_tokens() {
+            #[cfg(feature = "verif")] crate::verif::tick(304);
             if self.peek_expect(TokenKind::RightBracket) { break; }
             if let Some(x) = self.get_bound()   { segs.push(x); continue; }
             if let Some(x) = self.get_syll()?   { segs.push(x); continue; }
@@ -819,6 +824,7 @@ impl Parser {
         // should probably return SyntaxError::ExpectedRightBracketAtEol
         // bug or feature? ¯\_(ツ)_/¯
         while self.has_more_tokens() {
+            #[cfg(feature = "verif")] crate::verif::tick(305);
             if self.expect(TokenKind::RightCurly) { break; }
             if self.expect(TokenKind::Comma)      { continue; }
             if let Some(x) = self.get_seg()? {
@@ -887,6 +893,7 @@ impl Parser {
         let mut terms = Vec::new();
 
         while self.has_more_tokens() {
+            #[cfg(feature = "verif")] crate::verif::tick(306);
             if self.eat_expect(TokenKind::RightAngle).is_some() { break; }
             if let Some(x) = self.get_seg()? { 
                 terms.push(x);
@@ -950,6 +957,7 @@ impl Parser {
         // returns INP_EL+
         let mut els = Vec::new();
         loop {
+            #[cfg(feature = "verif")] crate::verif::tick(307);
             if let Some(el) = self.eat_expect(TokenKind::Ellipsis) {
                 els.push(Item::new(ParseElement::Ellipsis, el.position));
             } else if let Some(s_bound) = self.get_syll_bound() {
@@ -983,6 +991,7 @@ impl Parser {
         // returns OUT_EL+
         let mut els = Vec::new();
         while let Some(el) = self.get_output_el()? {
+            #[cfg(feature = "verif")] crate::verif::tick(308);
             els.push(el);
         }
         Ok(els)
@@ -1001,6 +1010,7 @@ impl Parser {
         // returns `INP ← INP_TRM  ( ',' INP_TRM )*` where `INP_TRM ← EMP / INP_EL+`
         let mut inputs = Vec::new();
         loop {
+            #[cfg(feature = "verif")] crate::verif::tick(309);
             // Insertion
             if let Some(empty) = self.get_empty() {
                 inputs.push(vec![empty]);
@@ -1040,6 +1050,7 @@ impl Parser {
         // returns `OUT ← OUT_TRM  ( ',' OUT_TRM )*` where `OUT_TRM ← '&' / EMP / OUT_EL+`
         let mut outputs = Vec::new();
         loop {
+            #[cfg(feature = "verif")] crate::verif::tick(310);
             // Metathesis
             if let Some(el) = self.eat_expect(TokenKind::Ampersand) {
                 outputs.push(vec![Item::new(ParseElement::Metathesis, el.position)]);
